@@ -185,22 +185,28 @@ Proof.
       split; [done|]. split; [|done]. rewrite lookup_delete_ne; [done|]. intros ->. congruence.
 Qed.
 
-Lemma bond_inv s e op v :
+Lemma bond_inv_gen s e op v (p : Z) :
   idx_ok s → eng_last s e → vals s !! op = Some v →
-  let s' := {| vals := vals s; idx := idx s; last := <[op := v_pow v]> (last s) |} in
-  idx_ok s' ∧ eng_last s' (<[v_key v := v_pow v]> e).
+  let s' := {| vals := vals s; idx := idx s; last := <[op := p]> (last s) |} in
+  idx_ok s' ∧ eng_last s' (<[v_key v := p]> e).
 Proof.
   intros Hi (He1 & He2) Hv. simpl. split; [exact Hi|]. split; simpl.
-  - intros o p Hlo. destruct (decide (o = op)) as [->|Hne].
+  - intros o q Hlo. destruct (decide (o = op)) as [->|Hne].
     + rewrite lookup_insert in Hlo. simplify_eq. exists v. split; [done|]. by rewrite lookup_insert.
     + rewrite lookup_insert_ne in Hlo by done. destruct (He1 _ _ Hlo) as (v' & Hv' & Hev).
       exists v'. split; [done|]. rewrite lookup_insert_ne; [done|].
       intros Hk. apply Hne. symmetry. eapply idx_ok_inj; eauto.
-  - intros k p Hk. destruct (decide (k = v_key v)) as [->|Hne].
+  - intros k q Hk. destruct (decide (k = v_key v)) as [->|Hne].
     + rewrite lookup_insert in Hk. simplify_eq. exists op, v. by rewrite lookup_insert.
     + rewrite lookup_insert_ne in Hk by done. destruct (He2 _ _ Hk) as (o & v' & Hlo & Hv' & Hkv).
       exists o, v'. split; [|done]. rewrite lookup_insert_ne; [done|]. intros <-. congruence.
 Qed.
+
+Lemma bond_inv s e op v :
+  idx_ok s → eng_last s e → vals s !! op = Some v →
+  let s' := {| vals := vals s; idx := idx s; last := <[op := v_pow v]> (last s) |} in
+  idx_ok s' ∧ eng_last s' (<[v_key v := v_pow v]> e).
+Proof. apply bond_inv_gen. Qed.
 
 Lemma unbond_inv s e op v :
   idx_ok s → eng_last s e → vals s !! op = Some v →
